@@ -2128,6 +2128,12 @@ int32 parseServerKeyExchange(ssl_t *ssl,
         Memcpy(ssl->sec.dhP, c, ssl->sec.dhPLen);
         c += ssl->sec.dhPLen;
 
+        if ((end - c) < 2)
+        {
+            ssl->err = SSL_ALERT_DECODE_ERROR;
+            psTraceErrr("Invalid ServerKeyExchange message\n");
+            return MATRIXSSL_ERROR;
+        }
         ssl->sec.dhGLen = *c << 8; c++;
         ssl->sec.dhGLen |= *c; c++;
         if ((uint32) (end - c) < ssl->sec.dhGLen)
@@ -2144,6 +2150,12 @@ int32 parseServerKeyExchange(ssl_t *ssl,
         Memcpy(ssl->sec.dhG, c, ssl->sec.dhGLen);
         c += ssl->sec.dhGLen;
 
+        if ((end - c) < 2)
+        {
+            ssl->err = SSL_ALERT_DECODE_ERROR;
+            psTraceErrr("Invalid ServerKeyExchange message\n");
+            return MATRIXSSL_ERROR;
+        }
         pubDhLen = *c << 8; c++;
         pubDhLen |= *c; c++;
 
